@@ -154,7 +154,21 @@ def with_constraints(pm: ProgramModel, ctx: Ctx, mb: ModelBuilder, entry: Any) -
         "negated-literal": [n_(o_("NOT"), n_("C"))],
         "excludes": [n_(o_("EXCLUDES"), n_("B"), n_("G1"))],
         "mutual-requires": [n_(o_("REQUIRES"), n_("B"), n_("C")), n_(o_("REQUIRES"), n_("C"), n_("B"))],
+        "equivalence-with-conjunction": [n_(o_("EQUIVALENCE"), n_("B"), n_(o_("AND"), n_("C"), n_("G1")))],
+        "equivalence-with-root": [n_(o_("EQUIVALENCE"), n_("C"), n_("R"))],
+        "double-negation": [n_(o_("NOT"), n_(o_("NOT"), n_("B")))],
     }
+    # every binary connective between two optional features, with each side plain or negated
+    for opn in ("AND", "OR", "IMPLIES", "REQUIRES", "EXCLUDES", "EQUIVALENCE", "XOR"):
+        for nl in (False, True):
+            for nr in (False, True):
+                if opn in ("REQUIRES", "EXCLUDES") and (nl or nr):
+                    continue
+                if opn == "AND" and nl and nr is False:
+                    pass
+                left = n_(o_("NOT"), n_("B")) if nl else n_("B")
+                right = n_(o_("NOT"), n_("C")) if nr else n_("C")
+                shapes.setdefault(f"{opn.lower()}:{'!' if nl else ''}B,{'!' if nr else ''}C", [n_(o_(opn), left, right)])
     for sname, trees in shapes.items():
         root = mb.feature("R")
         m_, b_, c_ = mb.feature("M"), mb.feature("B"), mb.feature("C")
